@@ -26,6 +26,7 @@ theorem tokens_step (P : Program) (F : Flags) (N : Nat) (hcap : F.cap = some N) 
     | rel => exact ⟨by simp only; omega, rfl, by intro h; cases h⟩
     | none => exact ⟨hle, rfl, by intro h; cases h⟩
     | reg k => exact ⟨hle, rfl, by intro h; cases h⟩
+    | wait k => exact ⟨hle, rfl, by intro h; cases h⟩
 
 /-- the raw monitor's counter is the model's slot counter -/
 theorem boundOk_replay (P : Program) (F : Flags) (N : Nat) (hcap : F.cap = some N) (tr : List Label) :
@@ -45,6 +46,7 @@ theorem boundOk_replay (P : Program) (F : Flags) (N : Nat) (hcap : F.cap = some 
       | rel => rw [he] at h2; simp only at h2 ⊢; rw [h2] at this; exact this
       | none => rw [he] at h2; simp only at h2 ⊢; rw [h2] at this; exact this
       | reg k => rw [he] at h2; simp only at h2 ⊢; rw [h2] at this; exact this
+      | wait k => rw [he] at h2; simp only at h2 ⊢; rw [h2] at this; exact this
     · cases h
 
 /-- per-activation invariant: the slot flag is a function of the phase -/
@@ -93,6 +95,11 @@ theorem holdR_local (F : Flags) (o : Obs) (s : Bool) (x : Act) (ev : Ev) (y : Ac
     obtain ⟨h1, h2⟩ := hd
     exact ⟨false, by simp only [holdMon, ← he, h1]; rfl, h2.symm, hy⟩
   | reg k =>
+    have h1 : y.holds = x.holds := hd
+    refine ⟨x.holds, ?_, h1.symm, hy⟩
+    cases ev <;> simp [evEff] at he
+    simp [holdMon, evEff]
+  | wait k =>
     have h1 : y.holds = x.holds := hd
     refine ⟨x.holds, ?_, h1.symm, hy⟩
     cases ev <;> simp [evEff] at he
@@ -156,5 +163,6 @@ theorem tokInv_step (P : Program) (F : Flags) (c : Config) (tr : List Label) (l 
       | rel => obtain ⟨h1, h2⟩ := hd; simp only [h1, h2] at hc; simp only; simp at hc; omega
       | none => have h1 : y.holds = x.holds := hd; simp only [h1] at hc; simp only; omega
       | reg k => have h1 : y.holds = x.holds := hd; simp only [h1] at hc; simp only; omega
+      | wait k => have h1 : y.holds = x.holds := hd; simp only [h1] at hc; simp only; omega
 
 end TaskModel.Sched.S7
